@@ -100,9 +100,10 @@ def check(case):
         cleanup_failed = set(name for kind, name in ref.cleanup_error_elems if kind == "scenario")
         hostile_seen = False
         failing = 0
+        ran_object = runcheck.ran_object_lookup(run)
         for fi, fobj in enumerate(run.features):
             base = "TESTS-f%d.xml" % fi
-            scenarios = list(fobj.walk_scenarios())
+            scenarios = [ran_object(s) for s in fobj.walk_scenarios()]
             if fobj.status.name == "skipped" and not show_skipped:
                 if base in reported:
                     res.fail("C16.skipped-feature-reported", "%s written for a skipped feature" % base)
